@@ -361,6 +361,43 @@ pub fn structural_engine_named(cmd: &Value) -> u64 {
     n
 }
 
+/// Observation only: assignment / unset keys that are a near miss of an engine-owned name (other case,
+/// dotted prefix / suffix, padding). The engine matches keys exactly, so these name other fields.
+pub fn near_miss_keys(cmd: &Value) -> u64 {
+    fn near(k: &str) -> bool {
+        if ENGINE_OWNED.contains(&k) {
+            return false;
+        }
+        let low = k.trim().to_ascii_lowercase();
+        ENGINE_OWNED.iter().any(|e| low == *e || low.split('.').any(|seg| seg == *e))
+    }
+    fn walk(x: &Value, n: &mut u64) {
+        if let Some(keys) = as_assignment_block(x) {
+            *n += keys.iter().filter(|k| near(k)).count() as u64;
+        }
+        match x {
+            Value::Object(m) => {
+                for (k, c) in m {
+                    if k == "Value" || k == "Literal" || k == "where_clauses" || k == "Object" {
+                        continue;
+                    }
+                    if (k == "unset_attributes" || k == "UnsetAttributes" || k == "fields")
+                        && let Some(xs) = c.as_array()
+                    {
+                        *n += xs.iter().filter_map(|s| s.as_str()).filter(|k| near(k)).count() as u64;
+                    }
+                    walk(c, n);
+                }
+            }
+            Value::Array(xs) => xs.iter().for_each(|c| walk(c, n)),
+            _ => {}
+        }
+    }
+    let mut n = 0;
+    walk(cmd, &mut n);
+    n
+}
+
 /// The ASSERT expansion, checked on the real clauses against what the author wrote (spec JSON).
 /// `clauses` are the clauses the statement expanded to (already cut out of the plan).
 pub fn check_assert_expansion(spec: &Value, seq: usize, clauses: &[Value]) -> Vec<Violation> {
